@@ -1,25 +1,10 @@
-"""Per-property configuration of ./check (sizes, extra runs, trusted base)."""
-
-COMMON_TRUST = []
-
-PROPS = {
-    "C14": dict(
-        quick_n=4000, thorough_n=120000,
-        trusted_base=["Go strings.Contains/HasPrefix/HasSuffix/Split/ReplaceAll/Repeat/TrimPrefix/TrimSuffix and bytes.* "
-                      "are modelled by the textbook list functions (Spec); validated by the correspondence run only",
-                      "rel.Difference/Array.Shift inside arrayTrimPrefix/Suffix are modelled on (index,item) pairs"],
-        assumptions=["sequences over a 2-3 letter alphabet, length <= 9, patterns <= 4; ASCII only for strings/bytes",
-                     "sparse/offset arrays as //seq arguments are outside this model (dense sequences only)"],
-    ),
-}
+"""Per-property configuration of ./check: collected from lib/props_cXX.py (one module per property,
+each defining PROP = dict(quick_n, thorough_n, trusted_base, assumptions, level_text, watch, extra, env, ...))."""
+import importlib, os, glob
 
 HOOK_COMMITS = []
-
-PROPS["C14"].update(
-    level_text="Proof: 31 Lean theorems — the specification functions are the textbook ones (window/append characterisations, "
-               "join inverts split, trim exact), the transliterated Go array helpers (search, arraySplit/Sub/Join/HasPrefix/HasSuffix/"
-               "TrimPrefix/TrimSuffix, repeat loop) equal them for all inputs, and the std_seq.go dispatch returns the specified "
-               "result for kind-consistent arguments in all three representations. The model is tied to /repo by running both on "
-               "generated //seq programs (all three representations) on every run. Partial for byte arrays in repeat/join (known findings).",
-    design_ref="DESIGN.md §6 C14",
-)
+PROPS = {}
+for f in sorted(glob.glob(os.path.join(os.path.dirname(os.path.abspath(__file__)), "props_c*.py"))):
+    name = os.path.basename(f)[:-3]
+    mod = importlib.import_module(name)
+    PROPS[name[6:].upper()] = mod.PROP
